@@ -102,7 +102,9 @@ class _RedisConsumer(ConsumerT):
                 await asyncio.sleep(self.POLLING_WAIT)
                 continue
             key, _, params = msg
-            if params.is_overdue:
+            # only normal consumption dead-letters overdue messages, otherwise
+            # they would never be retrievable from the dead (or delayed) category
+            if params.is_overdue and self.category == MessageCategory.NORMAL:
                 await self.broker.nack(key)
                 continue
             return msg
